@@ -82,7 +82,16 @@ type callerCfg struct {
 	Reps    int           // sequential Invokes
 	Gap     time.Duration // pause between sequential Invokes
 	Acquire bool          // Acquire a limiter token around every Invoke (needs Limit > 0)
+	Ctx     int           // ctxShared: the round's context; ctxOwnLive / ctxOwnTimed: an own context derived from it
+	OwnAt   time.Duration // ctxOwnTimed: the own context is cancelled this long after the round started
 }
+
+// per-caller contexts
+const (
+	ctxShared   = iota
+	ctxOwnLive  // own derived context, cancelled only by the Many-entry hook (if the round has it)
+	ctxOwnTimed // own derived context, cancelled at OwnAt
+)
 
 // cancellation of the round's context
 const (
@@ -95,9 +104,11 @@ const (
 var cancelNames = [...]string{"none", "before", "during", "after"}
 
 type roundCfg struct {
-	Callers  []callerCfg
-	Cancel   int
-	CancelAt time.Duration
+	PerCaller     bool // callers use own contexts derived from the round's context
+	CancelCreator bool // when a Many call is entered, the own context of the caller whose argument comes first (the group's creator) is cancelled
+	Callers       []callerCfg
+	Cancel        int
+	CancelAt      time.Duration
 }
 
 type scenario struct {
@@ -170,6 +181,8 @@ func genScenario(r *rand.Rand) scenario {
 		for b := range bursts {
 			bursts[b] = marks[r.Intn(len(marks))]
 		}
+		rc.PerCaller = r.Intn(2) == 0
+		rc.CancelCreator = rc.PerCaller && r.Intn(2) == 0
 		var span time.Duration
 		for c := 0; c < nc; c++ {
 			fi := r.Intn(len(sc.Fns))
@@ -185,6 +198,15 @@ func genScenario(r *rand.Rand) scenario {
 			if cc.Delay > span {
 				span = cc.Delay
 			}
+			if rc.PerCaller {
+				switch p := r.Intn(10); {
+				case p < 6:
+					cc.Ctx = ctxOwnLive
+				case p < 8:
+					cc.Ctx = ctxOwnTimed
+					cc.OwnAt = cc.Delay + time.Duration(r.Int63n(int64(ref.MaxDur+ref.SlowFor)))
+				}
+			}
 			rc.Callers = append(rc.Callers, cc)
 		}
 		switch p := r.Intn(10); {
@@ -197,6 +219,16 @@ func genScenario(r *rand.Rand) scenario {
 			rc.CancelAt = time.Duration(r.Int63n(int64(span + ref.MaxDur + 1)))
 		default:
 			rc.Cancel = cancelAfter
+		}
+		if rc.CancelCreator {
+			// make sure Many calls that honour their context occur
+			f := &sc.Fns[r.Intn(len(sc.Fns))]
+			f.Outcomes[0] = outSlowCtx
+			for k := range f.Outcomes {
+				if r.Intn(2) == 0 {
+					f.Outcomes[k] = outSlowCtx
+				}
+			}
 		}
 		sc.Rounds = append(sc.Rounds, rc)
 	}
@@ -221,9 +253,16 @@ func (sc scenario) describe() map[string]interface{} {
 	for i, rc := range sc.Rounds {
 		var cs []string
 		for k, c := range rc.Callers {
-			cs = append(cs, fmt.Sprintf("c%d(fn%d,s%d,+%v,x%d,acq:%v)", k, c.Fn, c.Shard, c.Delay, c.Reps, c.Acquire))
+			cx := ""
+			switch c.Ctx {
+			case ctxOwnLive:
+				cx = ",ownctx"
+			case ctxOwnTimed:
+				cx = fmt.Sprintf(",ownctx-cancelled@%v", c.OwnAt)
+			}
+			cs = append(cs, fmt.Sprintf("c%d(fn%d,s%d,+%v,x%d,acq:%v%s)", k, c.Fn, c.Shard, c.Delay, c.Reps, c.Acquire, cx))
 		}
-		rs = append(rs, fmt.Sprintf("round%d{cancel:%s@%v callers:%s}", i, cancelNames[rc.Cancel], rc.CancelAt, strings.Join(cs, " ")))
+		rs = append(rs, fmt.Sprintf("round%d{cancel:%s@%v perCallerContexts:%v cancelCreatorWhenManyEntered:%v callers:%s}", i, cancelNames[rc.Cancel], rc.CancelAt, rc.PerCaller, rc.CancelCreator, strings.Join(cs, " ")))
 	}
 	return map[string]interface{}{"funcs": fns, "limiter": sc.Limit, "limiter_first": sc.LimiterFirst, "rounds": rs, "yield_intensity": sc.Intensity}
 }
@@ -242,6 +281,7 @@ func want(a arg) string {
 
 // invRec is one Invoke; written by the calling goroutine, read after `done`.
 type invRec struct {
+	own      *ownCtx // nil: the call used the round's shared context
 	Arg      arg
 	callSeq  int64
 	retSeq   int64
@@ -265,9 +305,31 @@ type manyRec struct {
 }
 
 type mon struct {
-	seq   int64
-	mu    sync.Mutex
-	manys []*manyRec
+	seq    int64
+	mu     sync.Mutex
+	manys  []*manyRec
+	onMany func(*manyRec) // called (outside mu) when a Many call has been logged; set per round
+}
+
+// ownCtx is the cancellable context of one caller.
+type ownCtx struct {
+	ctx    context.Context
+	cancel context.CancelFunc
+	seq    int64 // atomic: tick taken before cancel() was first called by the scenario; 0 = not cancelled
+	fn     int
+}
+
+func (o *ownCtx) cancelNow(m *mon) {
+	atomic.CompareAndSwapInt64(&o.seq, 0, m.tick())
+	o.cancel()
+}
+
+func (o *ownCtx) cancelledBefore(t int64) bool {
+	if o == nil {
+		return false
+	}
+	s := atomic.LoadInt64(&o.seq)
+	return s != 0 && s < t
 }
 
 func (m *mon) tick() int64 { return atomic.AddInt64(&m.seq, 1) }
@@ -292,7 +354,11 @@ func (m *mon) makeFunc(idx int, cfg fnCfg) *fnState {
 		rec.ID = len(m.manys)
 		rec.startSeq = m.tick()
 		m.manys = append(m.manys, rec)
+		hook := m.onMany
 		m.mu.Unlock()
+		if hook != nil {
+			hook(rec)
+		}
 		finish := func() {
 			for i := range args {
 				if i >= len(rec.Args) || args[i] != rec.Args[i] {
@@ -356,6 +422,7 @@ func (m *mon) makeFunc(idx int, cfg fnCfg) *fnState {
 // ----------------------------------------------------------------- scenario
 
 type roundLog struct {
+	owns      []*ownCtx
 	cfg       roundCfg
 	invs      []*invRec
 	cancelSeq int64 // tick taken before cancel(); 0 = never cancelled while observed
@@ -399,11 +466,44 @@ func runScenario(run *vlib.Run, i int, agg *vlib.HitAgg) {
 			doCancel()
 		}
 		var pending int64
+		var cwg sync.WaitGroup
 		start := make(chan struct{})
+		owns := make([]*ownCtx, len(rc.Callers))
+		for ci, cc := range rc.Callers {
+			if cc.Ctx != ctxShared {
+				o := &ownCtx{fn: cc.Fn}
+				o.ctx, o.cancel = context.WithCancel(rctx)
+				owns[ci] = o
+				rl.owns = append(rl.owns, o)
+				if cc.Ctx == ctxOwnTimed {
+					cwg.Add(1)
+					go func(d time.Duration) {
+						defer cwg.Done()
+						<-start
+						time.Sleep(d)
+						o.cancelNow(m)
+					}(cc.OwnAt)
+				}
+			}
+		}
+		m.mu.Lock()
+		m.onMany = nil
+		if rc.CancelCreator {
+			round := ri
+			m.onMany = func(rec *manyRec) {
+				if rec.Outcome != outSlowCtx && rec.ID%3 != 0 {
+					return
+				}
+				if x, ok := rec.Args[0].(arg); ok && x.Round == round && x.Caller < len(owns) && owns[x.Caller] != nil {
+					owns[x.Caller].cancelNow(m)
+				}
+			}
+		}
+		m.mu.Unlock()
 		for ci, cc := range rc.Callers {
 			recs := make([]*invRec, cc.Reps)
 			for q := range recs {
-				recs[q] = &invRec{Arg: arg{Round: ri, Caller: ci, Seq: q, Fn: cc.Fn, Shard: cc.Shard}}
+				recs[q] = &invRec{own: owns[ci], Arg: arg{Round: ri, Caller: ci, Seq: q, Fn: cc.Fn, Shard: cc.Shard}}
 				rl.invs = append(rl.invs, recs[q])
 			}
 			atomic.AddInt64(&pending, int64(cc.Reps))
@@ -418,6 +518,9 @@ func runScenario(run *vlib.Run, i int, agg *vlib.HitAgg) {
 					}
 					func() {
 						ctx := rctx
+						if rec.own != nil {
+							ctx = rec.own.ctx
+						}
 						if cc.Acquire {
 							var rel concurrencylimiter.ReleaseFunc
 							ctx, rel = concurrencylimiter.Acquire(ctx)
@@ -439,7 +542,6 @@ func runScenario(run *vlib.Run, i int, agg *vlib.HitAgg) {
 				}
 			}(cc, recs)
 		}
-		var cwg sync.WaitGroup
 		if rc.Cancel == cancelDuring {
 			cwg.Add(1)
 			go func() {
@@ -478,6 +580,9 @@ func runScenario(run *vlib.Run, i int, agg *vlib.HitAgg) {
 			return
 		}
 		rl.cancelSeq = atomic.LoadInt64(&cancelSeq)
+		for _, o := range rl.owns {
+			o.cancel() // clean-up only: not recorded as a cancellation
+		}
 		if rc.Cancel == cancelAfter {
 			cancel()
 		} else {
@@ -687,7 +792,16 @@ func oracle(sc scenario, rounds []*roundLog, manys []*manyRec) (string, bool, ma
 				feats["late_joiner"]++
 				nontrivial = true
 			}
-			cancelledBeforeReturn := cancelled && rl.cancelSeq < rec.retSeq
+			// the caller's own context (or the shared one) was being cancelled before its Invoke returned
+			cancelledBeforeReturn := (cancelled && rl.cancelSeq < rec.retSeq) || rec.own.cancelledBefore(rec.retSeq)
+			// some other caller of the same Func had its own context cancelled before this Invoke
+			// returned: if that caller created the group, the whole group fails with its context error
+			groupMayBeCancelled := false
+			for _, o := range rl.owns {
+				if o != rec.own && o.fn == a.Fn && o.cancelledBefore(rec.retSeq) {
+					groupMayBeCancelled = true
+				}
+			}
 			id := fmt.Sprintf("%+v", a)
 			if rec.panicked != nil {
 				bad("Invoke panicked instead of returning", "arg", id, "panic", fmt.Sprint(rec.panicked))
@@ -697,8 +811,11 @@ func oracle(sc scenario, rounds []*roundLog, manys []*manyRec) (string, bool, ma
 			if mr == nil {
 				undisp++
 				feats["invoke:never_dispatched"]++
-				if !cancelledBeforeReturn {
-					bad("argument was never handed to Func.Many although its context was not cancelled before Invoke returned", "arg", id, "result", fmt.Sprint(rec.res), "err", fmt.Sprint(rec.err))
+				if groupMayBeCancelled && !cancelledBeforeReturn {
+					feats["invoke:live_caller_in_cancelled_creators_group"]++
+				}
+				if !cancelledBeforeReturn && !groupMayBeCancelled {
+					bad("argument was never handed to Func.Many although neither its own context nor that of another caller of the Func was cancelled before Invoke returned", "arg", id, "result", fmt.Sprint(rec.res), "err", fmt.Sprint(rec.err))
 				} else if rec.err == nil {
 					bad("Invoke returned a result without error although its argument was never handed to Func.Many", "arg", id, "result", fmt.Sprint(rec.res))
 				} else if !isCtxErr(rec.err) {
@@ -714,6 +831,9 @@ func oracle(sc scenario, rounds []*roundLog, manys []*manyRec) (string, bool, ma
 			case outOK, outSlow, outSlowCtx:
 				if mr.err != nil { // slow-until-cancel ended with the context error
 					feats["invoke:many_ctx_error"]++
+					if !cancelledBeforeReturn {
+						feats["invoke:live_caller_gets_ctx_error_of_its_batch"]++
+					}
 					if rec.err != mr.err && !ctxAlt {
 						bad("Invoke did not return the error of the Many call that contained its argument", "arg", id, "call", mr.ID, "got_err", fmt.Sprint(rec.err), "want_err", mr.err)
 					} else if rec.res != nil {
@@ -759,7 +879,16 @@ func oracle(sc scenario, rounds []*roundLog, manys []*manyRec) (string, bool, ma
 	}
 	var rs []string
 	for _, rc := range sc.Rounds {
-		rs = append(rs, fmt.Sprintf("%d%s", len(rc.Callers), cancelNames[rc.Cancel][:1]))
+		pc := ""
+		if rc.PerCaller {
+			pc = "p"
+			feats["round:per_caller_contexts"]++
+		}
+		if rc.CancelCreator {
+			pc = "P"
+			feats["round:creator_cancelled_when_many_entered"]++
+		}
+		rs = append(rs, fmt.Sprintf("%d%s%s", len(rc.Callers), cancelNames[rc.Cancel][:1], pc))
 	}
 	if sc.Limit > 0 {
 		feats["scenario:with_limiter"]++
@@ -781,11 +910,12 @@ func TestCheck(t *testing.T) {
 	defer run.Finish()
 	run.Rule("seeded scenarios on the real batch.Func: 1..3 Funcs on one batching context (MaxSize in {0,1,2,3,7}, WaitInterval 0.2-2 ms, MaxDuration 1-5 ms, 1..4 shards, Shard func nil or set, shard values either ints or values of different dynamic types / distinct pointers with the same %v rendering (orgID(b), deviceID(b), int b, string b, int64(b), two &shardPoint{b}, uint8(b)), per-call Many outcome from {ok, error, error+results, panic, short, long, slow, slow-until-cancel}), " +
 		"1..3 back-to-back rounds of 1..64 callers (1..3 sequential Invokes each) started in bursts placed at 0, 0.5/0.9/1/1.1/2 x WaitInterval and 0.9/1/1.1 x MaxDuration, round context cancelled never / before / during / after, " +
-		"with or without concurrencylimiter.With(ctx,1..3) and an Acquire around every Invoke, random yields at the batch.* and limiter.* hooks. All callers of a round share one cancellable context (the property speaks of 'the context'). " +
+		"with or without concurrencylimiter.With(ctx,1..3) and an Acquire around every Invoke, random yields at the batch.* and limiter.* hooks. In half of the rounds all callers share the round's cancellable context; in the other half callers use own contexts derived from it (live, cancelled at a seeded time, or - in half of those rounds - cancelled by the harness at the moment a Many call whose first argument is theirs, i.e. whose group they created, is entered, with Many outcomes biased to slow-until-cancel). " +
 		"Non-trivial = the log shows a MaxSize roll-over (a full batch followed by another batch of the same Func/shard in the round), a late joiner (Invoke called after a Many call of its Func/shard had started, and dispatched in a later call) or a cancellation while Invokes were outstanding; " +
 		"distinct = limiter size, per-Func (MaxSize, shards), per-round (callers, cancel mode), number of undispatched arguments and the multiset of Many calls (Func, batch size, outcome).")
 	run.Assume("shards are compared by Go equality (==) of the values the harness's Shard function returned for the arguments, never by a printed form")
 	run.Assume("arguments are unique (round, caller, seq) values; Many computes want(arg) per position, so any mis-pairing of argument and result is visible")
+	run.Assume("with per-caller contexts: a caller whose own context is live and whose argument was handed to a Many call gets that call's outcome (its error object if it failed, e.g. the creator's context error) and is never dispatched again; an argument that was never dispatched is accepted only with a context error and only if the caller's own context, the round context, or the own context of another caller of the same Func (a possible creator of its group) was being cancelled before the Invoke returned")
 	run.Assume("an Invoke may return the context's error instead of the batch outcome once cancel() of its context has been begun before it returned (lenient reading of 'or the batch's error')")
 	run.Assume("all log sequence numbers come from one atomic counter: Invoke call is logged before the call, Invoke return after it, Many entry/exit inside Many")
 	agg := vlib.NewHitAgg()
